@@ -752,7 +752,21 @@ class ExprMixin:
         raise Unsupported(f"cannot rebuild key from {proto}")
 
     def dict_del(self, d, key):
-        raise Unsupported("dict deletion (ordered key sequence)")
+        """remove a key that is present: later keys move up by one position"""
+        ke = self.key_expr(key)
+        pos = d.idx(ke)
+        n = d.keys.n
+        keys = sv.SList(sv.simp(n - 1), lambda i, d=d, pos=pos: sv.ite(i < pos, d.keys.at(i), d.keys.at(i + 1)), fresh=True)
+        nd = sv.SDict(
+            keys,
+            lambda k, d=d, ke=ke: sv.And(k != ke, d.dom(k)),
+            d.val,
+            lambda k, d=d, pos=pos: sv.If(d.idx(k) > pos, d.idx(k) - 1, d.idx(k)),
+            d.kwrap,
+        )
+        nd.ksort = getattr(d, "ksort", None)
+        nd.fresh = getattr(d, "fresh", False)
+        return nd
 
     def empty_set(self):
         s = sv.SSet(lambda k: z3.BoolVal(False), z3.IntVal(0), None)
